@@ -388,6 +388,10 @@ def hyp_documents(draw, tier):
     return {"spec": spec, "typed": typed}
 
 
+# (what round 8 added to the case domain; part of the evidence text)
+RULE_ROUND8 = ' One generated forest in 20 (60 in the thorough tier) is a BIG one (gen.big_specs: a child list of 11..300 nodes, that many clones of one data object, more than 256 nodes), with node references aimed at notable positions of the long child lists. Histories and routes also run with int data (incl. the hash twins -1 / -2), objects keyed by a callback and by a Tree subclass overriding calc_data_id(). Part python-O: histories and routes with PYTHONOPTIMIZE=1.'
+RULE = RULE + RULE_ROUND8
+
 PARTS = [
     Part("histories", run_histories, strategy=hyp_histories, n={"quick": 600, "thorough": 100000}),
     Part("routes", run_routes, strategy=hyp_routes, n={"quick": 600, "thorough": 100000}),
